@@ -182,30 +182,38 @@ def replay_estimators(ode, TT, cfg, isl):
 
 
 def adaptive_case(ode, A, x0, guess, dims):
+    """adaptive method on a Markov island: several horizons, first step sizes (below, equal to and above the horizon)
+    and both second methods"""
     out = []
-    snaps = snapshot([A, x0, guess])
-    T = 0.5
-    try:
-        sol, times = ode.adaptive_step_size(A, x0, guess, T, step_size_first=1e-3, step_size_min=1e-9, progress=False)
-    except Exception as e:
-        return [('adaptive:exception:%s' % type(e).__name__, repr(e))]
-    times = [float(t) for t in times]
-    if len(sol) != len(times):
-        out.append(('adaptive:length', '%d states for %d time points' % (len(sol), len(times))))
-    if times[0] != 0 or any(b <= a for a, b in zip(times, times[1:])) or times[-1] > T:
-        out.append(('adaptive:times', 'accepted time points are not strictly increasing within [0, T]: %r' % (times[:8],)))
-    if not same_state(sol[0], x0):
-        out.append(('adaptive:initial', 'first entry is not the initial value'))
-    for t in sol:
-        pm = metadata_problem(t)
-        if pm:
-            out.append(('adaptive:metadata', pm))
-            break
-    if changed(snaps):
-        out.append(('operand_changed', 'an argument of adaptive_step_size was modified'))
-    # hand the recorded accepted times to the trace validator (spec/Trace_Adaptive.tla)
     import json
-    out.append(('@adaptive', json.dumps(dict(times=[limbs(t) for t in times], tend=limbs(T), nsol=len(sol)))))
+    scen = [(0.5, 1e-3, 'two_step_Euler'), (0.125, 2.0, 'two_step_Euler'), (0.25, 0.25, 'trapezoidal_rule'),
+            (0.125, 2.0, 'trapezoidal_rule'), (0.5, 0.75, 'two_step_Euler')]
+    for T, h0, method in scen:
+        snaps = snapshot([A, x0, guess])
+        tag = 'adaptive' if (T, h0, method) == scen[0] else 'adaptive:h0=%g:T=%g:%s' % (h0, T, method)
+        try:
+            sol, times = ode.adaptive_step_size(A, x0, guess, T, step_size_first=h0, step_size_min=1e-9, second_method=method,
+                                                progress=False)
+        except Exception as e:
+            out.append(('%s:exception:%s' % (tag, type(e).__name__), repr(e)))
+            continue
+        times = [float(t) for t in times]
+        if len(sol) != len(times):
+            out.append(('%s:length' % tag, '%d states for %d time points' % (len(sol), len(times))))
+        if times[0] != 0 or any(b <= a for a, b in zip(times, times[1:])) or times[-1] > T:
+            out.append(('%s:times' % tag, 'accepted time points are not strictly increasing within [0, T=%g]: %r' % (T, times[:8],)))
+        if not same_state(sol[0], x0):
+            out.append(('%s:initial' % tag, 'first entry is not the initial value'))
+        for t in sol:
+            pm = metadata_problem(t)
+            if pm:
+                out.append(('%s:metadata' % tag, pm))
+                break
+        if changed(snaps):
+            out.append(('operand_changed', 'an argument of adaptive_step_size was modified'))
+        # hand the recorded accepted times to the trace validator (spec/Trace_Adaptive.tla)
+        if all(0 <= t < 1 for t in times):
+            out.append(('@adaptive', json.dumps(dict(times=[limbs(t) for t in times], tend=limbs(T), nsol=len(sol)))))
     return out
 
 
